@@ -406,6 +406,7 @@ def explore_layout(wd, drv, configs, rng, tier, stats, viol, samples):
     units = library_units()
     gen = generated_units(rng, units, 16 if tier == "quick" else 64)
     allu = [(n, f"au::{n}", [h]) for n, h in units] + gen
+    utype = {n: (t, hs) for n, t, hs in allu}
     nch = 8 if tier == "quick" else 16
     chunks = [allu[i::nch] for i in range(nch)]
     files = []
@@ -466,7 +467,8 @@ def explore_layout(wd, drv, configs, rng, tier, stats, viol, samples):
                     m = model[(cls, r)]
                     impl = {"size": s, "align": a, "tc": str((fl >> 2) & 1), "td": str((fl >> 3) & 1), "sl": str((fl >> 4) & 1),
                             "dflt": "zero" if (fl & 32 and fl & 64) else "nonzero"}
-                    base = {"kind": "layout", "cls": cls, "unit": un, "R": r, "config": cfg, "impl": impl, "model": m}
+                    base = {"kind": "layout", "cls": cls, "unit": un, "unit_type": utype[un][0], "unit_headers": utype[un][1],
+                            "R": r, "config": cfg, "impl": impl, "model": m}
                     # statement-level oracle: exactly R's size and alignment, the three type properties, R{} after construction
                     ok = (int(s) == sr and int(a) == ar and fl & 127 == 127)
                     if not ok:
@@ -761,7 +763,7 @@ def explore_ops(wd, drv, configs, rng, tier, seed, stats, viol, samples, distinc
             if not same:
                 stats["f4_cases"] += 1
                 viol.append({"what": f"`{CPP_EXPR[c['op']]}` on Quantity<{unit}, {c['R']}> gives {r['q']}, the built-in operator gives "
-                                     f"{r['r']} (a={fmt_val(c['R'], a)}, b={b})", "class": f"value-{c['op']}-{c['R']}",
+                                     f"{r['r']} (a={fmt_val(c['R'], a)}, b={fmt_val(c['R'] if FUNCTOR[c['op']][1] == 0 else c['T'], b)})", "class": f"value-{c['op']}-{c['R']}",
                              "rec": dict(pbase, kind="value", q=r["q"], r=r["r"],
                                          narrowing_explains=narrowing_explains(c, a, b, r["q"], r["r"]))})
             if r["ub"] != "0":
@@ -962,15 +964,20 @@ def main(tier, seed):
     stats["configs"] = [f"{c} -std={s}" for c, s, _ in configs]
     if proof.get("build_ok"):
         drv = Driver()
-        t1 = time.time()
-        nunits = explore_layout(wd, drv, configs, rng, tier, stats, viol, samples)
-        stats["layout_s"] = round(time.time() - t1, 1)
-        t1 = time.time()
-        explore_ops(wd, drv, configs, rng, tier, seed, stats, viol, samples, distinct)
-        stats["ops_s"] = round(time.time() - t1, 1)
-        t1 = time.time()
-        explore_rt(wd, drv, configs, rng, tier, stats, viol, samples, distinct)
-        stats["rt_s"] = round(time.time() - t1, 1)
+        nunits = 0
+        for name, fn in (("layout", lambda: explore_layout(wd, drv, configs, rng, tier, stats, viol, samples)),
+                         ("ops", lambda: explore_ops(wd, drv, configs, rng, tier, seed, stats, viol, samples, distinct)),
+                         ("rt", lambda: explore_rt(wd, drv, configs, rng, tier, stats, viol, samples, distinct))):
+            t1 = time.time()
+            try:
+                res = fn()
+                if name == "layout":
+                    nunits = res
+            except RuntimeError as e:     # a harness or the driver died: that is a result, not a crash of the check
+                viol.append({"what": f"{name} exploration aborted: {str(e)[:300]}", "class": f"abort-{name}", "no_input": True,
+                             "broken": f"correspondence: {name} harness / driver run", "rec": {"kind": "abort", "part": name},
+                             "detail": str(e)[-4000:]})
+            stats[f"{name}_s"] = round(time.time() - t1, 1)
     else:
         # The Lean side does not build.  If it is the data obligation over Generated/Classes, look for the concrete
         # (unit, rep) on which the statement fails by running the layout harness without the model.
@@ -982,6 +989,8 @@ def main(tier, seed):
                 explore_layout(wd, drv, configs[:1], rng, tier, stats, viol, samples)
         except Exception as e:      # noqa: BLE001
             stats["layout_search_error"] = str(e)[:500]
+    # a broken `.in()` also shows up in every operator value (results are read through it): report it first
+    viol.sort(key=lambda v: 0 if v.get("rec", {}).get("kind") == "q-roundtrip" else 1)
     viol, pending = split_pending(viol)
     for pf in PENDING_FINDINGS:
         vs = pending.get(pf["key"], [])
@@ -1071,8 +1080,8 @@ def replay(path):
         d = kv(ans[0])
         bad = d["q"] != r["x"] or (kind == "pt-roundtrip" and d["pt"] != r["x"])
     elif kind == "layout":
-        src = H.LAYOUT.replace("@UNIT_INCLUDES@", unit_header_includes([h for _, h in units]))
-        ut = "au::" + r["unit"] if not r["unit"].startswith("gen") else "au::" + units[0][0]
+        src = H.LAYOUT.replace("@UNIT_INCLUDES@", unit_header_includes(r.get("unit_headers") or [h for _, h in units]))
+        ut = r.get("unit_type") or "au::" + r["unit"]
         p = os.path.join(wd, "layout.cc")
         open(p, "w").write(src.replace("@ROWS@", f'    {{ using UT = {ut}; ROWS(UT, "{r["unit"]}") }}'))
         exe = os.path.join(wd, "layout")
